@@ -167,6 +167,21 @@ def run(chk):
         if q not in seen:
             r5.fail("%s:no-validation" % q, "%s no longer validates keys through check_key_helper" % q, file="pymemcache/client/base.py")
     wrapper_returns(prog, r5)
+    # HashClient: on every path through _get_client the routed key has been validated before the hasher is asked
+    # (a key that is never validated here is only rejected inside the safe runner, where ignore_exc swallows it)
+    from .rules_C12 import RouteDomain, Sym
+    from .paths import Interp, Env
+
+    gc = prog.method("HashClient", "_get_client")
+    n_routes = 0
+    for is_pair in (False, True):
+        for dead in (False, True):
+            dom = RouteDomain(prog, gc, is_pair, dead)
+            Interp(dom, gc.node, prog).run(Env({gc.pos_params()[0].name: Sym("key")}))
+            for node, arg, st in dom.routed:
+                n_routes += 1
+                r5.expect(arg in st.get("#validated", ()), "HashClient._get_client(%s key): the routed key was validated first" % ("pair" if is_pair else "plain"), "HashClient._get_client:routes-unvalidated-key", "for a %s key HashClient._get_client asks the hasher about a key that check_key_helper has not validated on this path: an illegal key is only rejected inside the routed call, where ignore_exc turns the error into a default value (or, with no server left, it is never rejected)" % ("(server_key, key) pair" if is_pair else "plain"), fn=gc, node=node)
+    r5.floor("routing paths of HashClient._get_client", n_routes, 4)
 
     # every key fragment on the wire of a key-addressed command was validated with the instance prefix
     from . import wire
